@@ -31,7 +31,8 @@ pub fn gen(seed: u64, tier: Tier, k: u64) -> Value {
     if n_extra > 0 && k % 16 >= 10 {
         case.id_gap = *rng.pick(&[1u16, 3, 300]);
     }
-    json!({"case": case.to_json(), "scn_seed": rng.next()})
+    // the extra packs next to the container, or in a sub-directory `packs/` (recorded as `packs/extraN.jbkc`)
+    json!({"case": case.to_json(), "scn_seed": rng.next(), "subdir": n_extra > 0 && k % 5 == 3})
 }
 
 fn kind_name(k: u8) -> &'static str {
@@ -46,8 +47,13 @@ fn kind_name(k: u8) -> &'static str {
 
 fn copy_dir(src: &Path, dst: &Path) {
     std::fs::create_dir_all(dst).unwrap();
-    for f in list_files(src) {
-        std::fs::copy(&f, dst.join(f.file_name().unwrap())).unwrap();
+    for e in std::fs::read_dir(src).unwrap().flatten() {
+        let p = e.path();
+        if p.is_dir() {
+            copy_dir(&p, &dst.join(p.file_name().unwrap()));
+        } else {
+            std::fs::copy(&p, dst.join(p.file_name().unwrap())).unwrap();
+        }
     }
 }
 
@@ -205,14 +211,15 @@ pub fn run(desc: &Value, ctx: &Ctx) -> CaseOut {
     let r = util::catch(|| {
         let origin = scratch.path("origin");
         std::fs::create_dir_all(&origin).unwrap();
-        let created = match create_container(&case, &origin, "c.jbk", Arc::new(())) {
+        let subdir = jbool(desc, "subdir");
+        let created = match create_container_ex(&case, &origin, "c.jbk", &if subdir { origin.join("packs") } else { origin.clone() }, Arc::new(())) {
             Ok(c) => c,
             Err(e) => return out.inconclusive(format!("creation failed (C01/C02's concern): {e}")),
         };
         // a second, independent creation of the same logical container: its packs are valid but have other uuids
         let foreign_dir = scratch.path("foreign");
         std::fs::create_dir_all(&foreign_dir).unwrap();
-        let foreign = match create_container(&case, &foreign_dir, "c.jbk", Arc::new(())) {
+        let foreign = match create_container_ex(&case, &foreign_dir, "c.jbk", &if subdir { foreign_dir.join("packs") } else { foreign_dir.clone() }, Arc::new(())) {
             Ok(c) => c,
             Err(e) => return out.inconclusive(format!("second creation failed: {e}")),
         };
@@ -241,7 +248,12 @@ pub fn run(desc: &Value, ctx: &Ctx) -> CaseOut {
         let subsets: Vec<u32> = (0..(1u32 << n_packs)).collect();
         let mut scn = 0u64;
         for subset in subsets {
-            let mode_list: Vec<&str> = if subset == 0 { vec!["none"] } else if ctx.tier == Tier::Thorough { modes.to_vec() } else { vec![modes[rng.usize_below(3)], "inside-container"] };
+            let mut mode_list: Vec<&str> = if subset == 0 { vec!["none"] } else if ctx.tier == Tier::Thorough { modes.to_vec() } else { vec![modes[rng.usize_below(3)], "inside-container"] };
+            // extras in `packs/`: the directory itself replaced by a regular file (looking a pack up then fails with "not a
+            // directory" rather than "no such file": the pack is just as unavailable)
+            if subdir && ids.iter().enumerate().any(|(bit, id)| subset & (1 << bit) != 0 && *id >= 2) {
+                mode_list.push("parent-is-a-file");
+            }
             for mode in mode_list {
                 let dir = scratch.path(&format!("s{subset}-{mode}"));
                 copy_dir(&origin, &dir);
@@ -250,8 +262,17 @@ pub fn run(desc: &Value, ctx: &Ctx) -> CaseOut {
                     if subset & (1 << bit) == 0 {
                         continue;
                     }
-                    let f = dir.join(file_of[id].file_name().unwrap());
+                    let rel = file_of[id].strip_prefix(&origin).unwrap_or(&file_of[id]).to_path_buf();
+                    let f = dir.join(&rel);
                     match mode {
+                        "parent-is-a-file" => {
+                            if *id >= 2 {
+                                // handled once below for the whole directory
+                            } else {
+                                std::fs::remove_file(&f).unwrap();
+                                unavailable.push(*id);
+                            }
+                        }
                         "removed" => {
                             std::fs::remove_file(&f).unwrap();
                             unavailable.push(*id);
@@ -263,7 +284,7 @@ pub fn run(desc: &Value, ctx: &Ctx) -> CaseOut {
                         }
                         "foreign-pack" => {
                             // a different valid pack (same logical content, other uuid) at the recorded location
-                            let src = foreign_dir.join(f.file_name().unwrap());
+                            let src = foreign_dir.join(&rel);
                             std::fs::copy(&src, &f).unwrap();
                             unavailable.push(*id);
                         }
@@ -276,6 +297,13 @@ pub fn run(desc: &Value, ctx: &Ctx) -> CaseOut {
                         }
                     }
                 }
+                if mode == "parent-is-a-file" {
+                    std::fs::remove_dir_all(dir.join("packs")).unwrap();
+                    std::fs::write(dir.join("packs"), b"not a directory").unwrap();
+                    for id in ids.iter().filter(|i| **i >= 2) {
+                        unavailable.push(*id);
+                    }
+                }
                 // optionally damage one present pack: check() must notice
                 let present: Vec<u16> = ids.iter().filter(|i| !unavailable.contains(i)).cloned().collect();
                 let damage = !present.is_empty() && mode != "inside-container" && rng.chance(1, 2);
@@ -283,7 +311,7 @@ pub fn run(desc: &Value, ctx: &Ctx) -> CaseOut {
                 if damage {
                     let id = *rng.pick(&present);
                     damaged_id = Some(id);
-                    let f = dir.join(file_of[&id].file_name().unwrap());
+                    let f = dir.join(file_of[&id].strip_prefix(&origin).unwrap_or(&file_of[&id]));
                     let mut bytes = std::fs::read(&f).unwrap();
                     let view = indep::decode_file(&bytes);
                     // flip one byte of raw/compressed cluster data or a table of the content pack
